@@ -1924,6 +1924,20 @@ func (r *Raft) installSnapshot(rpc RPC, req *InstallSnapshotRequest) {
 		r.setLeader(r.trans.DecodePeer(req.Leader), ServerID(req.ID))
 	}
 
+	// A snapshot that reaches no further than our own newest one, and no further
+	// than what we know to be committed, brings nothing: it was delayed or
+	// repeated. Installing it would take the state machine back below entries
+	// that may already have been compacted away.
+	if snapIdx, snapTerm := r.getLastSnapshot(); snapIdx > 0 && snapIdx >= req.LastLogIndex && snapTerm >= req.LastLogTerm &&
+		r.getCommitIndex() >= req.LastLogIndex {
+		r.logger.Info("ignoring installSnapshot request already covered by our own snapshot",
+			"request-index", req.LastLogIndex,
+			"snapshot-index", snapIdx)
+		resp.Success = true
+		r.setLastContact()
+		return
+	}
+
 	// Create a new snapshot
 	var reqConfiguration Configuration
 	var reqConfigurationIndex uint64
